@@ -32,6 +32,7 @@ class H:
         self.discharged = 0
         self.sample = None
         self.inputs_struct = None   # python structure with z3 leaves describing the inputs
+        self.covers = {}
 
     # -- symbolic input builders -------------------------------------------
     def byte(self, name, lo=0, hi=127, exclude=()):
@@ -78,6 +79,11 @@ class H:
 
     def choice(self, n):
         return self.P.choice(n)
+
+    def cover(self, name, cond=True):
+        """reachability witness: counts the paths on which `cond` (python bool) held"""
+        if cond:
+            self.covers[name] = self.covers.get(name, 0) + 1
 
     # -- discharge ------------------------------------------------------------
     def model_inputs(self, model):
